@@ -149,6 +149,13 @@ k("extract-torch-split", ["C01", "C15", "C02"], T + "jac.py", "        jac_matri
 k("materialize-grads-flag", ["C01", "C15", "C02"], T + "grad.py",
   "            allow_unused=True,\n        )\n        grads = _materialize(optional_grads, inputs)\n", "            allow_unused=True,\n            materialize_grads=True,\n        )\n        grads = optional_grads\n")
 k("inputs-ordered-dedup", ["C01", "C06", "C12", "C20"], J + "backward.py", "        inputs = set(inputs)\n", "        inputs = list(dict.fromkeys(inputs))\n")
+k("tensordict-validate-helper", ["C14"], T + "tensor_dict.py",
+  "        self._check_dict(tensor_dict)\n        self._check_all_pairs(tensor_dict)\n        super().__init__(tensor_dict)\n",
+  "        self._validate(tensor_dict)\n        super().__init__(tensor_dict)\n\n    def _validate(self, tensor_dict: dict[Tensor, Tensor]) -> None:\n        self._check_dict(tensor_dict)\n        self._check_all_pairs(tensor_dict)\n")
+k("traversal-guard-by-continue", ["C12"], J + "_utils.py",
+  "            if child is not None and child not in excluded_nodes:\n                nodes_to_traverse.append(child)  # Append to the right\n                excluded_nodes.add(child)\n",
+  "            if child is None or child in excluded_nodes:\n                continue\n            nodes_to_traverse.append(child)\n            excluded_nodes.add(child)\n")
+k("pcgrad-skip-by-guard", ["C18", "C10"], A + "pcgrad.py", "                if j == i:\n                    continue\n", "                if j == i:\n                    continue  # a row is never projected off itself\n")
 k("unparse-roundtrip", ALL, "*", "", "", "ast.unparse of every file: drops comments, moves every line")
 
 # NashMTL reset(): anchored on its docstring
